@@ -114,7 +114,8 @@ def load_findings():
 def _match(entry, v):
   if entry.get("status") != "known":
     return False
-  if entry.get("property") != v["pid"]:
+  props = entry.get("property")
+  if v["pid"] not in (props if isinstance(props, list) else [props]):
     return False
   sel = entry.get("selector")
   if not sel:
